@@ -17,6 +17,7 @@
 import AcnProofs.Lemmas.ResumeRun
 import AcnProofs.Lemmas.RegistryRoundtrip
 import AcnProofs.Lemmas.RegistryCodec
+import AcnProofs.Lemmas.RegistryDecode
 import AcnModel.Gen.Serial
 
 set_option linter.unusedSectionVars false
@@ -286,6 +287,25 @@ theorem roundtrip_resume_eq_codec_partial {K : Type} [Add K] [Sub K] [Mul K] [Di
       ∀ n, (decode ctx RegistrySim.root).map (run cfg sched n) = some (run cfg sched n s) :=
   roundtrip_resume_eq_partial cfg sched (RegistrySim.encode sh cfg) decode RegistrySim.root hlocal hinv s
     (RegistrySim.encode_acyclic sh cfg s) (RegistrySim.encode_closed sh cfg s)
+
+/-
+  Full statement (not proved): `RegistrySim.decode rd cfg amb ctx.get = some s` for the loaded store `ctx`,
+  under WF(s): every occupant and every plug-in / unplug event resolves to an EV object, `evsePilot` and `evs`
+  have the configured lengths, every EV object is referenced.  The decoder is executable and is checked on
+  every crash point in both directions (model state: `codec_inverse`; the implementation's own
+  `context_dict`: decoded, the model run continued from it and compared with the implementation's resumed
+  run).  Proved: the slice that carries the numbers of the property — after `to_json` → `from_json`, the
+  decoder recovers the complete EV list (per session: energy delivered, last rate, battery charge and power,
+  all static fields) from the loaded store, for every lawful scalar codec.
+-/
+theorem roundtrip_evs_decoded_partial {K : Type} {sh : RegistrySim.Show K} {rd : RegistrySim.Read K}
+    (hl : RegistrySim.Lawful sh rd) (cfg : Sim.Cfg K) (s : State K)
+    (hall : ∀ i, i < (RegistrySim.layout cfg s).size → Reach (RegistrySim.encode sh cfg s) RegistrySim.root i) :
+    ∃ ctx, dump (RegistrySim.encode sh cfg s) RegistrySim.root = .ok ctx ∧ load ctx RegistrySim.root = .ok ctx ∧
+      RegistrySim.sequence ((List.range s.evs.length).map fun j =>
+        RegistrySim.decodeEv rd ctx.get (3 + cfg.stations.length + 2 * j)) = some s.evs := by
+  obtain ⟨ctx, h1, h2, _, _, h5, _⟩ := encode_roundtrip sh cfg s
+  exact ⟨ctx, h1, h2, RegistrySim.decode_evs hl cfg s ctx.get (fun i hi => h5 i (hall i hi))⟩
 
 /-! ### non-vacuity: an EV shared by its station, `ev_history` and its pending UnplugEvent -/
 
